@@ -385,6 +385,11 @@ class RankEnv:
                         self.bad('C09.factor_not_restored', layer=name,
                                  factor=f)
         rec['include_factors'] = 'layers' in saved
+        if 'layers' in after:
+            rec['restored_factors'] = {
+                n: {k: (None if v is None else v.detach().clone())
+                    for k, v in f.items()}
+                for n, f in after['layers'].items()}
         self.restored = saved
 
     # -- operations ---------------------------------------------------------
